@@ -102,6 +102,55 @@ func selfCheck() error {
 		}
 	}
 
+	// default configuration: the role spelling must not be vacuous. Only the
+	// Linux-typed instance is looked at (what the Windows-typed one creates is
+	// the subject of the check, not a premise of the harness).
+	for _, kind := range []string{"MemFS", "OrefaFS"} {
+		l, _, err := newSideCfg(kind, false, sideCfg{sysDirs: true, idmSame: kind == "MemFS"})
+		if err != nil {
+			return err
+		}
+
+		if _, r := l.do(fsx.Call{Op: "CreateTemp", A: "", B: "t*"}); r.Kind != "ok" {
+			continue
+		}
+
+		ld, _ := l.dump()
+		m := parseDump(ld)
+
+		if e, ok := m["$TMP/t0"]; !ok || e.typ != "f" || m["$TMP"].typ != "d" {
+			return fmt.Errorf("selfcheck %s: default configuration: dump does not show $TMP and $TMP/t0: %q", kind, ld)
+		}
+
+		for n := range m {
+			if n != "." && !isRolePath(n) {
+				return fmt.Errorf("selfcheck %s: default configuration: system entry %q left in the portable dump: %q", kind, n, ld)
+			}
+		}
+
+		if got := l.normPath(l.v.Join(l.v.TempDir(), "x")); got != "$TMP/x" {
+			return fmt.Errorf("selfcheck %s: normPath below TempDir() = %q", kind, got)
+		}
+
+		// listings from outside the default locations leave the system area out,
+		// listings of a default location do not
+		if _, r := l.do(fsx.Call{Op: "WalkDir", A: "$TMP"}); r.Kind != "ok" || r.Val != "$TMP/,$TMP/t0" {
+			return fmt.Errorf("selfcheck %s: WalkDir($TMP) = %s", kind, r)
+		}
+
+		if _, r := l.do(fsx.Call{Op: "Glob", A: "/*/*"}); r.Kind != "ok" || r.Val != "" {
+			return fmt.Errorf("selfcheck %s: Glob(/*/*) shows the system area: %s", kind, r)
+		}
+	}
+
+	if got := shapeOf("/a*/b/[a"); got != "/W/L/B" {
+		return fmt.Errorf("selfcheck: shapeOf = %q", got)
+	}
+
+	if n := len(patOperands([]string{"a", "*"}, 3)); n != 2+4+8 {
+		return fmt.Errorf("selfcheck: patOperands enumerates %d operands, want 14", n)
+	}
+
 	type cc struct {
 		call, l, w string
 		want       bool
